@@ -62,7 +62,9 @@ Proof.
   induction rn as [|[rid st] up IH]; intros i src m Hm Hn; simpl.
   - split; [apply elems_of_list | exact Hm].
   - destruct Hn as [Hst Hup]. specialize (IH i src m Hm Hup).
-    destruct st as [f|p|g|].
+    destruct st as [f|p|g|h|].
+    4: { destruct (compute now up i src m) as [[s m1] ev]; simpl in *.
+         destruct IH as [IH1 IH2]. split; auto. rewrite elems_lpart, IH1; reflexivity. }
     + destruct (compute now up i src m) as [[s m1] ev]; simpl in *.
       destruct IH as [IH1 IH2]. split; auto. rewrite elems_lmap, IH1; reflexivity.
     + destruct (compute now up i src m) as [[s m1] ev]; simpl in *.
